@@ -4,7 +4,7 @@ Tie:    recipe programs (sequences of API calls over vector / matrix variables o
         (i) on the real optyx objects, (ii) on the Lean model (`recipe` command of Drive/Api.lean, which
         executes Py.VecApi with its own object-id allocation) and the canonical text of every register is
         compared exactly (structure of every built object, error class of every rejected call).
-Oracle: (iii) the same recipe interpreted directly in NumPy on small integer values; every register the real
+Oracle: (iii) the same recipe interpreted directly in NumPy on signed powers of two (all arithmetic exact); every register the real
         code evaluates must equal the NumPy value exactly; an object that was built must evaluate; a call
         NumPy rejects for incompatible shapes must have been rejected by optyx.
 Also:   the CPython slice model is compared exhaustively with `list(range(n))[slice]`.
@@ -63,7 +63,7 @@ ASSUMPTIONS = [
 
 
 def run_lean_unit(lines):
-    return core.run_lean(lines, main="Driver/Main_Api.lean")
+    return core.run_lean(lines)
 
 
 ERR_NAMES = {"DimensionMismatchError", "WrongDimensionalityError", "InvalidOperationError", "EmptyContainerError",
